@@ -101,11 +101,16 @@ func behaveOf(name string) string {
 
 // ---------------------------------------------------------------- probe binary
 
+// masters holds one copy of each executable content (probe, script) per permission-bit
+// pattern; plugin directory entries are hard links to them. All copies are made BEFORE the
+// first runtime is started: a file that is still open for writing anywhere — including, for
+// an instant, in a child forked by a concurrent os/exec — cannot be executed (ETXTBSY), and
+// that must not be mistaken for NRI failing to launch a plugin.
 type masters struct {
 	dir string
 	mu  sync.Mutex
 	src string            // the built probe
-	by  map[uint32]string // permission bits -> a copy of the probe with exactly these bits
+	by  map[string]string // content:mode -> path
 }
 
 func harnessDir() (string, error) {
@@ -160,19 +165,50 @@ func copyFile(src, dst string, mode os.FileMode) error {
 	return os.Chmod(dst, mode)
 }
 
-// master returns a probe copy with exactly the given permission bits (hard-link source).
-func (m *masters) master(mode uint32) (string, error) {
+// master returns the copy of `content` with exactly the given permission bits; it must have
+// been prepared (see prepare) before any runtime was started.
+func (m *masters) master(content string, mode uint32) (string, error) {
 	m.mu.Lock()
 	defer m.mu.Unlock()
-	if p, ok := m.by[mode]; ok {
+	k := fmt.Sprintf("%s-%04o", content, mode)
+	if p, ok := m.by[k]; ok {
 		return p, nil
 	}
-	p := filepath.Join(m.dir, fmt.Sprintf("probe-%04o", mode))
-	if err := copyFile(m.src, p, os.FileMode(mode)); err != nil {
-		return "", err
+	return "", fmt.Errorf("no master copy %s prepared", k)
+}
+
+func (m *masters) prepare(inputs []*dirIn) error {
+	need := map[string]bool{"probe-0755": true, "probe-0644": true}
+	for _, in := range inputs {
+		for _, e := range in.Entries {
+			if e.Kind == "file" && (e.Content == "probe" || e.Content == "script") {
+				need[fmt.Sprintf("%s-%04o", e.Content, e.Mode)] = true
+			}
+		}
 	}
-	m.by[mode] = p
-	return p, nil
+	for k := range need {
+		var content string
+		var mode uint32
+		i := strings.LastIndex(k, "-")
+		content = k[:i]
+		md, _ := strconv.ParseUint(k[i+1:], 8, 32)
+		mode = uint32(md)
+		p := filepath.Join(m.dir, k)
+		if content == "probe" {
+			if err := copyFile(m.src, p, os.FileMode(mode)); err != nil {
+				return err
+			}
+		} else {
+			if err := os.WriteFile(p, []byte("#!/bin/sh\nexit 0\n"), 0o600); err != nil {
+				return err
+			}
+			if err := os.Chmod(p, os.FileMode(mode)); err != nil {
+				return err
+			}
+		}
+		m.by[k] = p
+	}
+	return nil
 }
 
 // ---------------------------------------------------------------- one case
@@ -202,13 +238,13 @@ func populate(in *dirIn, base string, ms *masters) error {
 				var target string
 				switch e.Target {
 				case "probe":
-					t, err := ms.master(0o755)
+					t, err := ms.master("probe", 0o755)
 					if err != nil {
 						return err
 					}
 					target = t
 				case "noexec":
-					t, err := ms.master(0o644)
+					t, err := ms.master("probe", 0o644)
 					if err != nil {
 						return err
 					}
@@ -228,16 +264,12 @@ func populate(in *dirIn, base string, ms *masters) error {
 				}
 			default:
 				switch e.Content {
-				case "probe":
-					t, err := ms.master(e.Mode)
+				case "probe", "script":
+					t, err := ms.master(e.Content, e.Mode)
 					if err != nil {
 						return err
 					}
 					if err := os.Link(t, p); err != nil {
-						return err
-					}
-				case "script":
-					if err := os.WriteFile(p, []byte("#!/bin/sh\nexit 0\n"), 0o600); err != nil {
 						return err
 					}
 				case "wasm":
@@ -249,7 +281,7 @@ func populate(in *dirIn, base string, ms *masters) error {
 						return err
 					}
 				}
-				if e.Content != "probe" {
+				if e.Content != "probe" && e.Content != "script" {
 					if err := os.Chmod(p, os.FileMode(e.Mode)); err != nil {
 						return err
 					}
@@ -592,12 +624,15 @@ func Run(o *hx.Opts, w *lineio.Writer) error {
 	if err := os.MkdirAll(bin, 0o755); err != nil {
 		return err
 	}
-	ms := &masters{dir: bin, src: filepath.Join(bin, "probe"), by: map[uint32]string{}}
+	ms := &masters{dir: bin, src: filepath.Join(bin, "probe"), by: map[string]string{}}
 	t0 := time.Now()
 	if err := buildProbe(ms.src, "./c18/probe"); err != nil {
 		return err
 	}
 	if err := buildProbe(filepath.Join(bin, "probe2"), "./c18/probe2"); err != nil {
+		return err
+	}
+	if err := ms.prepare(inputs); err != nil {
 		return err
 	}
 	tBuild := time.Since(t0)
@@ -620,8 +655,23 @@ func Run(o *hx.Opts, w *lineio.Writer) error {
 			defer wg.Done()
 			for i := k; i < len(inputs); i += nw {
 				base := filepath.Join(o.Scratch, fmt.Sprintf("d%d", i))
-				obs[i], errs[i] = runCase(inputs[i], base, ms)
-				os.RemoveAll(filepath.Join(base, "plugins"))
+				// a Start / request / Stop that never returns is an observation, not a harness failure
+				type res struct {
+					o   dirObs
+					err error
+				}
+				ch := make(chan res, 1)
+				go func() {
+					o, err := runCase(inputs[i], base, ms)
+					ch <- res{o, err}
+				}()
+				select {
+				case r := <-ch:
+					obs[i], errs[i] = r.o, r.err
+					os.RemoveAll(filepath.Join(base, "plugins"))
+				case <-time.After(4 * time.Minute):
+					obs[i] = dirObs{Start: "blocked", Log: []logLine{}, Noise: []string{}, Probes: []probeObs{}}
+				}
 			}
 		}(k)
 	}
